@@ -439,9 +439,9 @@ def parseSecPart (t : Str) : Option (Int × Nat) :=
           let r := minuteFraction f.length n.toNat
           some ((r.1 : Int), r.2)
       | none => none
+    else if c5 ≠ ':' then none
     else
-      -- HH:mm:ss[.zzz] ; the character at 5 is not looked at, what follows the seconds is
-      -- ignored unless it is `.`/`,`
+      -- HH:mm:ss[.zzz] ; what follows the seconds is ignored unless it is `.`/`,`
       match readInt (rest.take 2) with
       | none => none
       | some sec =>
@@ -525,13 +525,18 @@ def splitZone (t : Str) : Option (Str × Int) :=
         | none => none
         | some secs => some (before, secs)
 
-/-- assemble date + time + offset into the UTC civil date-time -/
+/-- C++ `int` arithmetic as observed (two's complement wrap-around; formally undefined behaviour) -/
+def wrap32 (v : Int) : Int := (v + 2147483648) % 4294967296 - 2147483648
+
+/-- assemble date + time + offset into the UTC civil date-time.  Qt keeps the offset in
+milliseconds in an `int` (`offset * 1000`), which wraps for offsets beyond ±596 h — reachable only
+through the `+−hhh:` form with a three-digit negative hour. -/
 def toUtc (date : Int × Nat × Nat) (tm : Tm) (offset : Int) : Dt :=
   let d0 := if tm.midnight24 then nextDay date.1 date.2.1 date.2.2 else date
-  let sod : Int := (tm.hour * 3600 + tm.minute * 60 + tm.second : Nat) - offset
-  let d1 := addDays (sod / 86400) d0.1 d0.2.1 d0.2.2
-  let s := (sod % 86400).toNat
-  ⟨d1.1, d1.2.1, d1.2.2, s / 3600, s / 60 % 60, s % 60, tm.msec⟩
+  let ms : Int := ((tm.hour * 3600 + tm.minute * 60 + tm.second) * 1000 + tm.msec : Nat) - wrap32 (offset * 1000)
+  let d1 := addDays (ms / 86400000) d0.1 d0.2.1 d0.2.2
+  let r := (ms % 86400000).toNat
+  ⟨d1.1, d1.2.1, d1.2.2, r / 3600000, r / 60000 % 60, r / 1000 % 60, r % 1000⟩
 
 /-- `QXmppUtils::datetimeFromString(s)` = `QDateTime::fromString(s, Qt::ISODate).toUTC()`;
 `none` = invalid QDateTime -/
